@@ -932,7 +932,10 @@ func (i *Interp) call(n *ast.Node) V {
 		case KFn, KNative:
 			rt("cannot copy a function")
 		case KUnset:
-			un("unset value passed as an argument")
+			// contains(v) is == against every element, and == is false for an unset v (3.6)
+			if !(fv.K == KNative && fv.Nat.Name == "contains" && fv.Nat.Recv != nil) {
+				un("unset value passed as an argument")
+			}
 		}
 		args = append(args, v)
 	}
